@@ -1,7 +1,9 @@
 """C13 - an expression means the same in every position, alias, spelling and cache size"""
 from ..scen_expr import separators, option_tails
+from ..scen_ctx import contexts
 
 
 def run(ctx):
     separators(ctx)
     option_tails(ctx)
+    contexts(ctx)        # 'the current input with its parents': every option position sees the same context derivations
